@@ -10,6 +10,7 @@ SHAPES = ["precondition_satisfiable", "exact", "fallback", "bounds_none_included
 def _ranges_harnesses(types):
     hs = ["end_bound_%s" % t for t in INTS + FLOATS]
     hs += ["excl_end_%s" % t for t in INTS]
+    hs += ["count_forms_%s" % t for t in INTS] + ["count_forms_f64"]
     hs += ["dm_%s::%s" % (t, s) for t in types for s in SHAPES]
     return hs
 
